@@ -38,6 +38,10 @@ def generate(tier, seed):
     # two cysteines with their sulfurs exactly 2.5 A apart on exactly representable coordinates: no bridge
     for k in range(12 if tier == "quick" else 300):
         cases.append({"kind": "cystie", "seed": "%d:ct:%d" % (seed, k), "cost": 3})
+    # a disulfide of real length lying along a coordinate axis, at every position relative to the 2.51 A grid
+    # of the bond search (and any other grid): bridged wherever it stands
+    for k in range(60 if tier == "quick" else 1500):
+        cases.append({"kind": "cysaxis", "k": k, "seed": "%d:ca:%d" % (seed, k), "cost": 3})
     # every fragment of the library (each ligand group type, DNA residues) next to real protein
     from .. import fragments
     reps = 2 if tier == "quick" else 30
@@ -188,6 +192,18 @@ def run_case(case, tier):
         recs = sources.repo_recs(case["file"])
         desc["file"] = case["file"]
         optset = case["optset"]
+    elif case["kind"] == "cysaxis":
+        from .c11 import two_cys_at_exactly_2p5
+        ax = case["k"] % 3
+        d_ = rng.choice((2030, 2040, 2100, 2250, 2400, 2490)) * rng.choice((1, -1))
+        vec = [0, 0, 0]
+        vec[ax] = d_
+        # sulfur 1 in steps of 0.04 A across a cell of any width between 2.0 and 2.6 A, positive and negative
+        target = [rng.randrange(-30000, 30000) for _ in range(3)]
+        target[ax] = rng.choice((-1, 1)) * (rng.randrange(0, 20) * 2510 + (case["k"] // 3) * 40 % 2600)
+        recs = two_cys_at_exactly_2p5(rng, vec=vec, target=target)
+        optset = "none"
+        classes.append("axis-aligned-disulfide")
     elif case["kind"] == "cystie":
         from .c11 import two_cys_at_exactly_2p5
         recs = two_cys_at_exactly_2p5(rng)
@@ -211,7 +227,10 @@ def run_case(case, tier):
                 r = r.copy()
                 r.alt = " "
                 recs[i] = r
-        frag, expect, dist = fragments.place_near(recs, case["frag"], rng, dist_A=rng.uniform(3.0, 12.0), min_clear_A=3.0)
+        shuffled = rng.random() < 0.5
+        frag, expect, dist = fragments.place_near(recs, case["frag"], rng, dist_A=rng.uniform(3.0, 12.0), min_clear_A=3.0, shuffle=shuffled)
+        if shuffled:
+            classes.append("fragment-records-in-another-order")
         optset = rng.choice(("none", "none", "-i"))
         if frag is not None:
             recs = recs + ([pdbio.raw("TER")] if case["frag"].startswith("dna:") else []) + frag
@@ -231,7 +250,7 @@ def run_case(case, tier):
                 r = r.copy()
                 r.alt = " "
                 recs[i] = r
-        if case["kind"] not in ("fragment", "models", "cystie"):
+        if case["kind"] not in ("fragment", "models", "cystie", "cysaxis"):
             recs = edit_layout(recs, rng, desc)
             optset = None
     opts, optset, chains, tlist = pick_options(rng, recs, optset)
@@ -263,6 +282,12 @@ def run_case(case, tier):
             counts["declared_types_checked"] = counts.get("declared_types_checked", 0) + 1
             if got.get(a) != t:
                 viol.append({"cls": "fragment-type-not-reached", "msg": "fragment %s: atom %s typed %r, declared %s" % (desc["frag"], a, got.get(a), t)})
+        # ... and nothing else: a group on an atom for which the library declares none (an ester oxygen pair read as a
+        # carboxylate, a second group on a ring) is a group that is not in the structure
+        if desc["frag"] in fragments.FRAGMENTS and desc["frag"] != "sulfate":
+            for a, t in got.items():
+                if a not in desc["declared"]:
+                    viol.append({"cls": "fragment-undeclared-group", "msg": "fragment %s: atom %s carries a group of type %s, the library declares none there" % (desc["frag"], a, t)})
     nsites = nstarts = 0
     if cen:
         first = cen["models"].get(min(cen["models"])) if cen["models"] else []
